@@ -120,7 +120,7 @@ impl SvgElement {
 //@end
 //@item src/element.rs :: impl SvgElement :: fn has_pending_geometry
 //@ ensures
-//@ - r == pending(self.attrs@)     @@C10.pending.spec
+//@ - r == pending(self.attrs@)     @@C10.pending.spec @@C09.pending.spec
 //@end
 
 //@item src/element.rs :: impl SvgElement :: fn bbox_raw
